@@ -46,9 +46,15 @@ def run(ctx):
         rules_C11.eq_coverage(ctx, f, fam, "core::%s::rule::Rule" % fam, cfg, R="C10.unchanged/equality")
         per_resource(ctx, f, fam, bodies, cfg)
         raw_snapshot(ctx, f, fam, bodies, cfg)
+        enforced_updated(ctx, f, fam, bodies, cfg)
+        append_snapshot(ctx, f, fam, bodies, cfg)
         append_protocol(ctx, f, lm, fam, bodies, cfg)
         getters(ctx, f, lm, fam, bodies, cfg)
     ctx.floor("C10.anchor", "rule manager modules", n_mgr, 5)
+    # a valid rule is held (enforced) only if a generator exists for its strategy: the registration tables are total and consistent
+    from . import gentable
+    for fam in ("flow", "hotspot", "circuitbreaker"):
+        gentable.check(ctx, f, fam, cfg, "C10.generators")
 
 
 CONTAINER_STEPS = ("iter", "iter_mut", "into_iter", "next", "values", "values_mut", "keys", "get", "get_mut", "unwrap", "unwrap_or", "expect", "entry",
@@ -467,6 +473,86 @@ def append_protocol(ctx, f, lm, fam, bodies, cfg):
                 ctx.violation("C10.append-protocol", "C10.append-protocol|%s" % p.replace("core::", "", 1),
                               "%s does not store the list returned by %s as a whole (uses: %s): controllers that were moved out of the live list are dropped" % (
                                   p.replace("core::", "", 1), callee_def(t).rsplit("::", 1)[-1], sorted(set(uses))), b.loc(bb), config=cfg)
+
+
+ENFORCED = {"flow": ["CONTROLLER_MAP"], "hotspot": ["CONTROLLER_MAP"], "circuitbreaker": ["BREAKER_MAP", "BREAKER_RULES"]}
+
+
+def enforced_updated(ctx, f, fam, bodies, cfg):
+    """Every path on which a load / append reports "changed" also updates the enforced structure of that resource (insert of the rebuilt
+    list, or removal when nothing is left): otherwise the previously enforced rules stay in force and keep being reported."""
+    # (append_rule is not listed: its re-read of the raw map in a second critical section has a benign "entry vanished" path)
+    for name in ("load_rules", "load_rules_of_resource"):
+        b = bodies.get("core::%s::rule_manager::%s" % (fam, name))
+        if b is None or fam not in ENFORCED:
+            continue
+        changed = []
+        for bi, blk in enumerate(b.blocks):
+            if blk["cleanup"]:
+                continue
+            for st in blk["stmts"]:
+                if st["k"] == "assign" and st["lhs"]["l"] == 0 and not st["lhs"]["p"]:
+                    rv = st["rv"]
+                    if rv["k"] == "use" and const_val(rv["op"]) == 1 and b.ret_ty == "bool":
+                        changed.append(bi)
+                    if rv["k"] == "agg" and rv.get("variant") == "Ok" and rv["ops"] and const_val(rv["ops"][0]) == 1:
+                        changed.append(bi)
+        for emap in ENFORCED[fam]:
+            writes = []
+            for bb, kind, t in _global_writes(f, b):
+                if t is None:
+                    for st in b.blocks[bb]["stmts"]:
+                        if st["k"] == "assign" and st["lhs"]["p"] == ["*"]:
+                            a = container_roots(f, b, {"k": "copy", "pl": {"l": st["lhs"]["l"], "p": []}})
+                            if any(x.startswith("static:") and x.endswith("::" + emap) for x in a):
+                                writes.append(bb)
+                elif kind in ("insert", "remove", "clear"):
+                    a = container_roots(f, b, t["args"][0])
+                    if any(x.startswith("static:") and x.endswith("::" + emap) for x in a):
+                        writes.append(bb)
+            w = must_pass(b, [0], changed, writes) if changed else None
+            ok = bool(changed) and bool(writes) and w is None
+            ctx.instance("C10.enforced-updated", "%s#%s" % (b.path, emap), {"writes": len(set(writes)), "changed_exits": len(changed), "path_without_update": fmt_path(b, w) if w else None},
+                         "every path that reports a change inserts into / removes from %s" % emap, ok, cfg)
+            if not ok:
+                ctx.violation("C10.enforced-updated", "C10.enforced-updated|%s::%s|%s" % (fam, name, emap),
+                              "%s::%s can report a change without touching %s: the rules enforced before stay in force (and are still reported) although they are no longer loaded" % (fam, name, emap),
+                              b.loc(), fmt_path(b, w) if w else None, config=cfg)
+
+
+ENF1 = {"flow": "CONTROLLER_MAP", "hotspot": "CONTROLLER_MAP", "circuitbreaker": "BREAKER_MAP", "isolation": "RULE_MAP", "system": "RULE_MAP"}
+
+
+def append_snapshot(ctx, f, fam, bodies, cfg):
+    """append_rule records the rule in the raw snapshot (the list the next load is compared with) whenever it makes it enforced:
+    otherwise a later load of the pre-append list is taken for "unchanged" and the appended rule stays in force for ever."""
+    b = bodies.get("core::%s::rule_manager::append_rule" % fam)
+    if b is None:
+        return
+    raw, enf = RAW[fam], ENF1[fam]
+
+    def writes_of(name):
+        out = []
+        for bb, kind, t in _global_writes(f, b):
+            if t is None:
+                continue
+            a = container_roots(f, b, t["args"][0])
+            if any(x.startswith("static:") and x.endswith("::" + name) for x in a) and kind in ("insert", "push", "extend", "append"):
+                out.append(bb)
+        return out
+    E, Rw = writes_of(enf), writes_of(raw)
+    bad = []
+    for e in E:
+        before = any(b.dominates(r, e) for r in Rw)
+        after = bool(Rw) and must_pass(b, [e], b.return_blocks(), Rw) is None
+        if not (before or after):
+            bad.append(b.loc(e))
+    ok = bool(E) and bool(Rw) and not bad
+    ctx.instance("C10.append-snapshot", b.path, {"enforced": enf, "snapshot": raw, "enforcing_sites": len(E), "snapshot_sites": len(Rw), "enforced_without_snapshot": bad},
+                 "whenever the rule is inserted into %s it is also recorded in %s" % (enf, raw), ok, cfg)
+    if not ok:
+        ctx.violation("C10.append-snapshot", "C10.append-snapshot|%s" % fam,
+                      "%s::append_rule makes the rule enforced (%s) without recording it in %s: a later load of the previous list is skipped as unchanged and the appended rule stays in force" % (fam, enf, raw), b.loc(), config=cfg)
 
 
 def getters(ctx, f, lm, fam, bodies, cfg):
